@@ -25,9 +25,13 @@ K(rpc) == IF rpc = "ping" THEN Hd.inflight.ping ELSE Hd.inflight.consensus
 Ev(rpc) == SelectSeq(Rec, LAMBDA e : e.e \in {"start", "end"} /\ e.rpc = rpc)
 Starts(rpc) == SelectSeq(Rec, LAMBDA e : e.e = "start" /\ e.rpc = rpc)
 
+(* A raw peer that sends the request together with every OPEN ("raw", "rawlate": header field tight) leaves no gap between the grant  *)
+(* and the handler start: there the starts ARE the grants and the limiter's own bound applies without the K term - also after the   *)
+(* peer stayed silent for a while (a permit is held, not consumed, while a stream waits for the peer's OPEN).                       *)
+Slack(rpc) == IF Hd.tight THEN 0 ELSE K(rpc)
 WindowOK(rpc) ==
     LET s == Starts(rpc) IN
-    \A i, j \in 1..Len(s) : i <= j => (j - i + 1) <= B + ((s[j].t - s[i].t) \div R) + 1 + K(rpc)
+    \A i, j \in 1..Len(s) : i <= j => (j - i + 1) <= B + ((s[j].t - s[i].t) \div R) + 1 + Slack(rpc)
 (* tightest observed slack w.r.t. the bound WITHOUT the K term (reported, not a verdict) *)
 Max(S) == CHOOSE x \in S : \A y \in S : y <= x
 TightExcess(rpc) ==
